@@ -819,3 +819,494 @@ theorem ptAnswering_append (a b : List PTPeer) : ptAnswering (a ++ b) = ptAnswer
 
 theorem ptFailed_append (a b : List PTPeer) : ptFailed (a ++ b) = ptFailed a ++ ptFailed b := by
   simp [ptFailed]
+
+/-! ## 6. merging Stats rows -/
+
+/-- what one reply cell does to one accumulator -/
+def slot (k : AccKind) (a : Acc) (v : Json) : Acc :=
+  match k with
+  | .counter => a.apply (jsonToMilli v) (Int.toNat (milliTrunc (jsonToMilli v)))
+  | _ => a.apply (jsonToMilli v) 1
+
+theorem ptApply_nil_accs (kinds : List AccKind) (vals : List Json) : ptApply kinds [] vals = [] := by
+  simp [ptApply]
+
+theorem ptApply_cons (k : AccKind) (kinds : List AccKind) (a : Acc) (accs : List Acc) (v : Json) (vals : List Json) :
+    ptApply (k :: kinds) (a :: accs) (v :: vals) = slot k a v :: ptApply kinds accs vals := by
+  simp only [ptApply, List.zip_cons_cons, List.map_cons, slot, List.cons.injEq, and_true]
+  cases k <;> rfl
+
+theorem ptApply_length (kinds : List AccKind) (accs : List Acc) (vals : List Json)
+    (h1 : accs.length = kinds.length) (h2 : vals.length = kinds.length) :
+    (ptApply kinds accs vals).length = kinds.length := by
+  simp [ptApply, h1, h2]
+
+/-- `ptApply` works slot by slot -/
+theorem ptApply_getElem? (kinds : List AccKind) (accs : List Acc) (vals : List Json) (i : Nat)
+    (k : AccKind) (a : Acc) (v : Json) (hk : kinds[i]? = some k) (ha : accs[i]? = some a) (hv : vals[i]? = some v) :
+    (ptApply kinds accs vals)[i]? = some (slot k a v) := by
+  induction kinds generalizing accs vals i with
+  | nil => simp at hk
+  | cons k' ks ih =>
+    cases accs with
+    | nil => simp at ha
+    | cons a' as =>
+      cases vals with
+      | nil => simp at hv
+      | cons v' vs =>
+        rw [ptApply_cons]
+        cases i with
+        | zero => simp at hk ha hv; subst hk ha hv; simp
+        | succ i => simp at hk ha hv; simpa using ih as vs i hk ha hv
+
+/-- folding reply rows into the accumulators is one fold per slot -/
+theorem foldl_ptApply_getElem? (kinds : List AccKind) (rows : List (List Json)) (accs : List Acc)
+    (hacc : accs.length = kinds.length) (hrows : ∀ r ∈ rows, r.length = kinds.length)
+    (i : Nat) (k : AccKind) (a : Acc) (hk : kinds[i]? = some k) (ha : accs[i]? = some a) :
+    (rows.foldl (ptApply kinds) accs)[i]? =
+      some ((rows.map fun r => r.getD i Json.null).foldl (slot k) a) := by
+  induction rows generalizing accs a with
+  | nil => simpa using ha
+  | cons r rs ih =>
+    have hr : r.length = kinds.length := hrows r (by simp)
+    have hi : i < kinds.length := by
+      rcases Nat.lt_or_ge i kinds.length with h | h
+      · exact h
+      · rw [List.getElem?_eq_none h] at hk; cases hk
+    have hv : r[i]? = some (r.getD i Json.null) := by
+      rw [List.getD_eq_getElem?_getD, List.getElem?_eq_getElem (by omega)]; simp
+    simp only [List.foldl_cons, List.map_cons]
+    exact ih _ (ptApply_length _ _ _ hacc hr) (fun r' h' => hrows r' (by simp [h'])) _
+      (ptApply_getElem? _ _ _ _ _ _ _ hk ha hv)
+
+theorem slot_kind (k : AccKind) (a : Acc) (v : Json) : (slot k a v).kind = a.kind := by
+  cases k <;> simp only [slot, Acc.apply] <;> cases a.kind <;> rfl
+
+/-- a counter accumulator adds the numbers the backends counted -/
+theorem fold_slot_counter (a : Acc) (h : a.kind = .counter) (vs : List Json) :
+    vs.foldl (slot .counter) a =
+      { kind := .counter,
+        stats := a.stats + ((vs.map fun v => Int.toNat (milliTrunc (jsonToMilli v))).sum : Nat),
+        count := a.count + (vs.map fun v => Int.toNat (milliTrunc (jsonToMilli v))).sum } := by
+  induction vs generalizing a with
+  | nil => cases a; simp_all
+  | cons x xs ih =>
+    simp only [List.foldl_cons]
+    rw [ih _ (by rw [slot_kind]; exact h)]
+    simp only [slot, Acc.apply, h, List.map_cons, List.sum_cons, Acc.mk.injEq, true_and]
+    constructor <;> omega
+
+/-- for the other kinds every backend's value is applied once -/
+theorem fold_slot_agg (k : AccKind) (hk : k ≠ .counter) (a : Acc) (vs : List Json) :
+    vs.foldl (slot k) a = (vs.map jsonToMilli).foldl (fun a m => a.apply m 1) a := by
+  induction vs generalizing a with
+  | nil => rfl
+  | cons x xs ih =>
+    simp only [List.foldl_cons, List.map_cons]
+    rw [ih]
+    cases k <;> first | exact absurd rfl hk | rfl
+
+theorem foldl_add_shift (a : Int) (l : List Int) : l.foldl (· + ·) a = a + l.foldl (· + ·) 0 := by
+  induction l generalizing a with
+  | nil => simp
+  | cons x xs ih =>
+    simp only [List.foldl_cons]
+    rw [ih (a + x), ih (0 + x)]; omega
+
+theorem fold_sum (a : Acc) (h : a.kind = .sum) (vs : List Int) :
+    vs.foldl (fun a v => a.apply v 1) a =
+      { kind := .sum, stats := vs.foldl (· + ·) a.stats, count := a.count + vs.length } := by
+  induction vs generalizing a with
+  | nil => cases a; simp_all
+  | cons x xs ih =>
+    simp only [List.foldl_cons]
+    rw [ih _ (by simp [Acc.apply, h])]
+    simp only [Acc.apply, h, List.length_cons, Acc.mk.injEq, true_and]
+    omega
+
+theorem fold_avg (a : Acc) (h : a.kind = .avg) (vs : List Int) :
+    vs.foldl (fun a v => a.apply v 1) a =
+      { kind := .avg, stats := vs.foldl (· + ·) a.stats, count := a.count + vs.length } := by
+  induction vs generalizing a with
+  | nil => cases a; simp_all
+  | cons x xs ih =>
+    simp only [List.foldl_cons]
+    rw [ih _ (by simp [Acc.apply, h])]
+    simp only [Acc.apply, h, List.length_cons, Acc.mk.injEq, true_and]
+    omega
+
+theorem fold_min (a : Acc) (h : a.kind = .min) (hc : 0 < a.count) (vs : List Int) :
+    vs.foldl (fun a v => a.apply v 1) a =
+      { kind := .min, stats := vs.foldl min a.stats, count := a.count + vs.length } := by
+  induction vs generalizing a with
+  | nil => cases a; simp_all
+  | cons x xs ih =>
+    simp only [List.foldl_cons]
+    rw [ih _ (by simp [Acc.apply, h]) (by simp [Acc.apply, h])]
+    have hne : (a.count == 0) = false := by simp; omega
+    simp only [Acc.apply, h, List.length_cons, Acc.mk.injEq, true_and, hne]
+    refine ⟨?_, by omega⟩
+    congr 1
+    simp only [Int.min_def]
+    by_cases hx : a.stats > x <;> simp [hx] <;> omega
+
+theorem fold_max (a : Acc) (h : a.kind = .max) (hc : 0 < a.count) (vs : List Int) :
+    vs.foldl (fun a v => a.apply v 1) a =
+      { kind := .max, stats := vs.foldl max a.stats, count := a.count + vs.length } := by
+  induction vs generalizing a with
+  | nil => cases a; simp_all
+  | cons x xs ih =>
+    simp only [List.foldl_cons]
+    rw [ih _ (by simp [Acc.apply, h]) (by simp [Acc.apply, h])]
+    have hne : (a.count == 0) = false := by simp; omega
+    simp only [Acc.apply, h, List.length_cons, Acc.mk.injEq, true_and, hne]
+    refine ⟨?_, by omega⟩
+    congr 1
+    simp only [Int.max_def]
+    by_cases hx : a.stats < x <;> simp [hx] <;> omega
+
+/-- the printed value of an aggregate slot that was fed the values `ms` is the arithmetic specification -/
+theorem final_fold_agg (k : AccKind) (hk : k ≠ .counter) (ms : List Int) :
+    (ms.foldl (fun a m => a.apply m 1) (Acc.init k)).final = specFinal k ms := by
+  cases k
+  · exact absurd rfl hk
+  · rw [fold_sum _ (by simp [Acc.init])]; cases ms <;> simp [Acc.final, specFinal, Acc.init]
+  · rw [fold_avg _ (by simp [Acc.init])]; cases ms <;> simp [Acc.final, specFinal, Acc.init]
+  · cases ms with
+    | nil => simp [Acc.final, specFinal, Acc.init]
+    | cons v vs =>
+      simp only [List.foldl_cons]
+      rw [fold_min _ (by simp [Acc.apply, Acc.init]) (by simp [Acc.apply, Acc.init])]
+      simp [Acc.final, specFinal, Acc.init, Acc.apply]
+  · cases ms with
+    | nil => simp [Acc.final, specFinal, Acc.init]
+    | cons v vs =>
+      simp only [List.foldl_cons]
+      rw [fold_max _ (by simp [Acc.apply, Acc.init]) (by simp [Acc.apply, Acc.init])]
+      simp [Acc.final, specFinal, Acc.init, Acc.apply]
+
+/-- the printed value of a counter slot is the sum of the backends' (truncated, non-negative) numbers -/
+theorem final_fold_counter (vs : List Json) :
+    (vs.foldl (slot .counter) (Acc.init .counter)).final =
+      ((((vs.map fun v => Int.toNat (milliTrunc (jsonToMilli v))).sum : Nat) : Int), 1) := by
+  rw [fold_slot_counter _ (by simp [Acc.init])]
+  simp only [Acc.final, Acc.init]
+  generalize (vs.map fun v => Int.toNat (milliTrunc (jsonToMilli v))).sum = n
+  have hk : (AccKind.counter == AccKind.min) = false := rfl
+  simp only [hk, Bool.false_eq_true, if_false, Nat.zero_add, Int.zero_add]
+  by_cases hn : n = 0
+  · subst hn; simp
+  · simp [hn]
+
+/-! ### grouping by the text of the requested columns -/
+
+abbrev Groups := List (List String × List Acc)
+
+/-- the key and the Stats values of a reply row -/
+def rowKey (ncol : Nat) (row : List Json) : List String := (row.take ncol).map ptKeyText
+def rowVals (ncol : Nat) (row : List Json) : List Json := row.drop ncol
+def goodRow (kinds : List AccKind) (ncol : Nat) (row : List Json) : Bool := row.length == ncol + kinds.length
+
+/-- change the accumulators of the group `key` -/
+def updGroup (key : List String) (f : List Acc → List Acc) (g : Groups) : Groups :=
+  g.map (fun ka => if ka.1 == key then (ka.1, f ka.2) else (ka.1, ka.2))
+
+/-- the loop body of `ptStats` -/
+def statsStep (kinds : List AccKind) (ncol : Nat) (acc : Groups × Nat) (row : List Json) : Groups × Nat :=
+  if row.length != ncol + kinds.length then (acc.1, acc.2 + 1)
+  else
+    match acc.1.find? (·.1 == rowKey ncol row) with
+    | some _ => (updGroup (rowKey ncol row) (fun a => ptApply kinds a (rowVals ncol row)) acc.1, acc.2)
+    | none => (acc.1 ++ [(rowKey ncol row, ptApply kinds (kinds.map Acc.init) (rowVals ncol row))], acc.2)
+
+/-- the groups and the number of skipped rows after all spliced rows have been folded in -/
+def statsFold (t : Table) (req : Request) (peers : List PTPeer) : Groups × Nat :=
+  (spliced t req peers).foldl
+    (statsStep (req.stats.map StatsEntry.accKind) (requestColumns t req).length) ([], 0)
+
+theorem ptStats_eq (t : Table) (req : Request) (peers : List PTPeer) :
+    ptStats t req peers =
+      { rows := if req.columns.isEmpty && (statsFold t req peers).1.isEmpty
+          then [([], (req.stats.map StatsEntry.accKind).map Acc.init)] else (statsFold t req peers).1,
+        failed := ptFailed peers, skipped := (statsFold t req peers).2 } := by
+  rfl
+
+def glookup (g : Groups) (k : List String) : Option (List Acc) := (g.find? (·.1 == k)).map (·.2)
+
+def gkeys (g : Groups) : List (List String) := g.map (·.1)
+
+theorem glookup_cons (x : List String × List Acc) (xs : Groups) (k : List String) :
+    glookup (x :: xs) k = if x.1 = k then some x.2 else glookup xs k := by
+  unfold glookup
+  rw [List.find?_cons]
+  by_cases h : x.1 = k
+  · simp [h]
+  · have hb : (x.1 == k) = false := by simpa using h
+    simp [hb, h]
+
+theorem glookup_none_iff (g : Groups) (k : List String) : glookup g k = none ↔ k ∉ gkeys g := by
+  unfold glookup gkeys
+  rw [Option.map_eq_none_iff, List.find?_eq_none]
+  simp only [List.mem_map, not_exists, not_and]
+  constructor
+  · intro h x hx hk; exact h x hx (by simp [hk])
+  · intro h x hx hk; exact h x hx (by simpa using hk)
+
+theorem glookup_update (g : Groups) (key : List String) (f : List Acc → List Acc) (k : List String) :
+    glookup (updGroup key f g) k = if k = key then (glookup g k).map f else glookup g k := by
+  induction g with
+  | nil => simp [glookup, updGroup]
+  | cons x xs ih =>
+    unfold updGroup at ih ⊢
+    rw [List.map_cons, glookup_cons, glookup_cons, ih]
+    by_cases hx : x.1 = key
+    · by_cases hk : k = key
+      · subst hk; simp [hx]
+      · have : ¬ key = k := fun h => hk h.symm
+        simp [hx, hk, this]
+    · by_cases hxk : x.1 = k
+      · have : ¬ k = key := fun h => hx (hxk.trans h)
+        simp [hxk, this]
+      · simp [hx, hxk]
+
+theorem gkeys_update (g : Groups) (key : List String) (f : List Acc → List Acc) :
+    gkeys (updGroup key f g) = gkeys g := by
+  unfold gkeys updGroup
+  rw [List.map_map]
+  apply List.map_congr_left
+  intro x _
+  simp only [Function.comp]
+  split <;> rfl
+
+theorem glookup_append_new (g : Groups) (key : List String) (x : List Acc) (h : glookup g key = none)
+    (k : List String) :
+    glookup (g ++ [(key, x)]) k = if k = key then some x else glookup g k := by
+  by_cases hk : k = key
+  · subst hk
+    unfold glookup at h ⊢
+    rw [Option.map_eq_none_iff] at h
+    simp [List.find?_append, h]
+  · have : ¬ key = k := fun h => hk h.symm
+    unfold glookup
+    simp only [List.find?_append, hk, if_false]
+    cases List.find? (fun x => x.1 == k) g <;> simp [this]
+
+theorem statsStep_bad (kinds : List AccKind) (ncol : Nat) (acc : Groups × Nat) (row : List Json)
+    (h : goodRow kinds ncol row = false) : statsStep kinds ncol acc row = (acc.1, acc.2 + 1) := by
+  unfold statsStep
+  have : (row.length != ncol + kinds.length) = true := by simpa [goodRow] using h
+  simp [this]
+
+theorem statsStep_good (kinds : List AccKind) (ncol : Nat) (acc : Groups × Nat) (row : List Json)
+    (h : goodRow kinds ncol row = true) :
+    (statsStep kinds ncol acc row).2 = acc.2 ∧
+    (∀ k, glookup (statsStep kinds ncol acc row).1 k =
+      if k = rowKey ncol row then
+        some (ptApply kinds ((glookup acc.1 k).getD (kinds.map Acc.init)) (rowVals ncol row))
+      else glookup acc.1 k) ∧
+    (gkeys (statsStep kinds ncol acc row).1 =
+      if rowKey ncol row ∈ gkeys acc.1 then gkeys acc.1 else gkeys acc.1 ++ [rowKey ncol row]) := by
+  have hb : (row.length != ncol + kinds.length) = false := by simpa [goodRow] using h
+  unfold statsStep
+  simp only [hb, Bool.false_eq_true, if_false]
+  cases hf : List.find? (fun x => x.1 == rowKey ncol row) acc.1 with
+  | some x =>
+    have hl : glookup acc.1 (rowKey ncol row) = some x.2 := by simp [glookup, hf]
+    have hmem : rowKey ncol row ∈ gkeys acc.1 := by
+      apply Decidable.byContradiction
+      intro hn; rw [← glookup_none_iff, hl] at hn; cases hn
+    refine ⟨rfl, ?_, ?_⟩
+    · intro k
+      simp only
+      rw [glookup_update]
+      by_cases hk : k = rowKey ncol row
+      · subst hk; simp [hl]
+      · simp [hk]
+    · simp only [hmem, if_true]
+      exact gkeys_update _ _ _
+  | none =>
+    have hl : glookup acc.1 (rowKey ncol row) = none := by simp [glookup, hf]
+    have hmem : rowKey ncol row ∉ gkeys acc.1 := (glookup_none_iff _ _).mp hl
+    refine ⟨rfl, ?_, ?_⟩
+    · intro k
+      simp only
+      rw [glookup_append_new _ _ _ hl]
+      by_cases hk : k = rowKey ncol row
+      · subst hk; simp [hl]
+      · simp [hk]
+    · simp only [hmem, if_false]
+      simp [gkeys]
+
+/-- one more row for a group: start the accumulators if the group is new, then apply the values -/
+def ostep (kinds : List AccKind) (o : Option (List Acc)) (vals : List Json) : Option (List Acc) :=
+  some (ptApply kinds (o.getD (kinds.map Acc.init)) vals)
+
+theorem foldl_ostep_some (kinds : List AccKind) (a : List Acc) (vs : List (List Json)) :
+    vs.foldl (ostep kinds) (some a) = some (vs.foldl (ptApply kinds) a) := by
+  induction vs generalizing a with
+  | nil => rfl
+  | cons v vs ih => simp only [List.foldl_cons, ostep, Option.getD_some, ih]
+
+/-- the Stats values of the well-formed rows that carry the key `k` -/
+def valsOfKey (kinds : List AccKind) (ncol : Nat) (k : List String) (rows : List (List Json)) : List (List Json) :=
+  ((rows.filter (goodRow kinds ncol)).filter (fun r => rowKey ncol r == k)).map (rowVals ncol)
+
+/-- the grouping fold, key by key: rows with the same key are applied to one group's accumulators in
+    order, rows with another key never touch them; rows of the wrong width are only counted -/
+theorem foldl_statsStep (kinds : List AccKind) (ncol : Nat) (rows : List (List Json)) (acc : Groups × Nat) :
+    (rows.foldl (statsStep kinds ncol) acc).2 = acc.2 + (rows.filter (fun r => !goodRow kinds ncol r)).length ∧
+    (∀ k, glookup (rows.foldl (statsStep kinds ncol) acc).1 k =
+      (valsOfKey kinds ncol k rows).foldl (ostep kinds) (glookup acc.1 k)) ∧
+    ((gkeys acc.1).Nodup → (gkeys (rows.foldl (statsStep kinds ncol) acc).1).Nodup) := by
+  induction rows generalizing acc with
+  | nil => simp [valsOfKey]
+  | cons r rs ih =>
+    simp only [List.foldl_cons]
+    obtain ⟨ih1, ih2, ih3⟩ := ih (statsStep kinds ncol acc r)
+    cases hg : goodRow kinds ncol r with
+    | false =>
+      rw [statsStep_bad _ _ _ _ hg] at ih1 ih2 ih3 ⊢
+      refine ⟨?_, ?_, ih3⟩
+      · rw [ih1]; simp [hg]; omega
+      · intro k; rw [ih2]; simp [valsOfKey, hg]
+    | true =>
+      obtain ⟨s1, s2, s3⟩ := statsStep_good kinds ncol acc r hg
+      refine ⟨?_, ?_, ?_⟩
+      · rw [ih1, s1]; simp [hg]
+      · intro k
+        rw [ih2, s2]
+        by_cases hk : k = rowKey ncol r
+        · subst hk; simp [valsOfKey, hg, ostep]
+        · have : ¬ rowKey ncol r = k := fun h => hk h.symm
+          simp [valsOfKey, hg, hk, this]
+      · intro hnd
+        apply ih3
+        rw [s3]
+        split
+        · exact hnd
+        · rename_i hmem
+          rw [List.nodup_append]
+          refine ⟨hnd, by simp, ?_⟩
+          intro a ha b hb
+          simp only [List.mem_singleton] at hb
+          subst hb
+          intro hab; subst hab; exact hmem ha
+
+theorem gkeys_foldl_statsStep (kinds : List AccKind) (ncol : Nat) (rows : List (List Json)) (acc : Groups × Nat)
+    (k : List String) :
+    k ∈ gkeys (rows.foldl (statsStep kinds ncol) acc).1 ↔
+      k ∈ gkeys acc.1 ∨ ∃ r ∈ rows, goodRow kinds ncol r = true ∧ rowKey ncol r = k := by
+  induction rows generalizing acc with
+  | nil => simp
+  | cons r rs ih =>
+    simp only [List.foldl_cons]
+    rw [ih]
+    cases hg : goodRow kinds ncol r with
+    | false =>
+      rw [statsStep_bad _ _ _ _ hg]
+      constructor
+      · rintro (h | ⟨r', hr', h1, h2⟩)
+        · exact Or.inl h
+        · exact Or.inr ⟨r', by simp [hr'], h1, h2⟩
+      · rintro (h | ⟨r', hr', h1, h2⟩)
+        · exact Or.inl h
+        · rcases List.mem_cons.mp hr' with h | h
+          · subst h; rw [hg] at h1; cases h1
+          · exact Or.inr ⟨r', h, h1, h2⟩
+    | true =>
+      obtain ⟨_, _, s3⟩ := statsStep_good kinds ncol acc r hg
+      rw [s3]
+      constructor
+      · rintro (h | ⟨r', hr', h1, h2⟩)
+        · split at h
+          · exact Or.inl h
+          · rcases List.mem_append.mp h with h | h
+            · exact Or.inl h
+            · simp only [List.mem_singleton] at h
+              exact Or.inr ⟨r, by simp, hg, h.symm⟩
+        · exact Or.inr ⟨r', by simp [hr'], h1, h2⟩
+      · rintro (h | ⟨r', hr', h1, h2⟩)
+        · left; split
+          · exact h
+          · exact List.mem_append_left _ h
+        · rcases List.mem_cons.mp hr' with h | h
+          · subst h; left; split
+            · rename_i hm; rw [← h2]; exact hm
+            · rw [← h2]; simp
+          · exact Or.inr ⟨r', h, h1, h2⟩
+
+theorem glookup_foldl_statsStep_nil (kinds : List AccKind) (ncol : Nat) (rows : List (List Json)) (k : List String) :
+    glookup (rows.foldl (statsStep kinds ncol) ([], 0)).1 k =
+      if valsOfKey kinds ncol k rows = [] then none
+      else some ((valsOfKey kinds ncol k rows).foldl (ptApply kinds) (kinds.map Acc.init)) := by
+  rw [(foldl_statsStep kinds ncol rows ([], 0)).2.1 k]
+  have h0 : glookup ([] : Groups) k = none := rfl
+  rw [h0]
+  cases hv : valsOfKey kinds ncol k rows with
+  | nil => rfl
+  | cons v vs =>
+    simp only [List.foldl_cons, ostep, Option.getD_none, foldl_ostep_some]
+    simp
+
+theorem valsOfKey_length (kinds : List AccKind) (ncol : Nat) (k : List String) (rows : List (List Json)) :
+    ∀ v ∈ valsOfKey kinds ncol k rows, v.length = kinds.length := by
+  intro v hv
+  simp only [valsOfKey, List.mem_map, List.mem_filter] at hv
+  obtain ⟨r, ⟨⟨_, hg⟩, _⟩, rfl⟩ := hv
+  simp only [goodRow, beq_iff_eq] at hg
+  simp [rowVals, hg]
+
+/-- the printed value of slot `i` of a group, from the cells the reply rows carry for that slot -/
+def slotFinal (kind : AccKind) (cells : List Json) : Int × Nat :=
+  match kind with
+  | .counter => ((((cells.map fun v => Int.toNat (milliTrunc (jsonToMilli v))).sum : Nat) : Int), 1)
+  | k => specFinal k (cells.map jsonToMilli)
+
+theorem foldl_ptApply_final (kinds : List AccKind) (vals : List (List Json))
+    (hvals : ∀ v ∈ vals, v.length = kinds.length) (i : Nat) (kind : AccKind) (hk : kinds[i]? = some kind) :
+    ∃ a, (vals.foldl (ptApply kinds) (kinds.map Acc.init))[i]? = some a ∧
+      a.final = slotFinal kind (vals.map fun r => r.getD i Json.null) := by
+  have ha : (kinds.map Acc.init)[i]? = some (Acc.init kind) := by simp [hk]
+  refine ⟨_, foldl_ptApply_getElem? kinds vals _ (by simp) hvals i kind _ hk ha, ?_⟩
+  by_cases hc : kind = .counter
+  · subst hc; rw [final_fold_counter]; rfl
+  · rw [fold_slot_agg kind hc, final_fold_agg kind hc]
+    cases kind <;> first | exact absurd rfl hc | rfl
+
+theorem groups_single_key (g : Groups) (h : ∀ k ∈ gkeys g, k = []) (hn : (gkeys g).Nodup) :
+    g = [] ∨ ∃ a, g = [([], a)] := by
+  cases g with
+  | nil => exact Or.inl rfl
+  | cons x xs =>
+    right
+    cases xs with
+    | nil =>
+      refine ⟨x.2, ?_⟩
+      have := h x.1 (by simp [gkeys])
+      cases x; simp_all
+    | cons y ys =>
+      have hx := h x.1 (by simp [gkeys])
+      have hy := h y.1 (by simp [gkeys])
+      simp [gkeys, hx, hy] at hn
+
+theorem allPoint_iff (all : List Column) (s : List SortField) (js : List Nat) :
+    AllPoint all s js ↔ s.length = js.length ∧
+      ∀ (k : Nat) (sf : SortField) (j : Nat), s[k]? = some sf → js[k]? = some j → Points all sf j := by
+  induction s generalizing js with
+  | nil => cases js <;> simp [AllPoint]
+  | cons sf s ih =>
+    cases js with
+    | nil => simp [AllPoint]
+    | cons j js =>
+      simp only [AllPoint, ih, List.length_cons]
+      constructor
+      · rintro ⟨hp, hl, hall⟩
+        refine ⟨by omega, ?_⟩
+        intro k sf' j' h1 h2
+        cases k with
+        | zero => simp at h1 h2; subst h1 h2; exact hp
+        | succ k => simp at h1 h2; exact hall k sf' j' h1 h2
+      · rintro ⟨hl, hall⟩
+        refine ⟨hall 0 sf j (by simp) (by simp), by omega, ?_⟩
+        intro k sf' j' h1 h2
+        exact hall (k + 1) sf' j' (by simpa using h1) (by simpa using h2)
